@@ -18,9 +18,42 @@ FILES = ("LC_CSR_Graph.h", "LC_CSR_CSC_Graph.h", "LC_InOut_Graph.h", "LC_CSR_Hyp
 G = "galois::graphs::"
 
 
+def file_edge_type(ctx, fx):
+    ctx.rule("C11.file-edge-type",
+             "every local-computation graph layout reads the file's edge data as the FILE's edge type (the class's FileEdgeTy "
+             "template argument, which with_file_edge_data / with_edge_data can make different from the in-memory EdgeTy) and "
+             "converts: the template argument of FileGraph::getEdgeData<X> in constructEdgeValue / constructFrom equals "
+             "FileEdgeTy in every instantiation, including the ones where the two types differ (sibling agreement of CSR, "
+             "CSR+CSC, linear, inline-edge and morph-LC layouts)")
+    n = differ = 0
+    for f in fx.functions:
+        if f["kind"] != "inst" or not (f.get("cls") or "").startswith("galois::graphs::LC_"):
+            continue
+        for b in f.get("blocks", []):
+            for e in b["ev"]:
+                if not (e.get("k") == "call" and e.get("name") == "getEdgeData" and (e.get("cls") or "").endswith("FileGraph")):
+                    continue
+                m = re.search(r"getEdgeData<(.*)>$", e.get("fk") or "")
+                got = m.group(1).strip() if m else "?"
+                cargs = [x.strip() for x in f.get("targs", "").split("||")[0].split("|")]
+                fet = cargs[-1] if cargs else "?"
+                ety = cargs[1] if len(cargs) > 1 else "?"
+                if fet == "void":
+                    continue
+                n += 1
+                if fet != ety:
+                    differ += 1
+                ctx.ob("C11.file-edge-type", f["qn"], got == fet,
+                       "reads the file's edge data as %s, the file holds %s (in-memory edge type %s)" % (got, fet, ety),
+                       "%s:%s" % (f["file"], e.get("l")), "%s/%s" % (f["cls"].split("::")[-1], fet), fnkey=f["key"])
+    ctx.floor("FileGraph::getEdgeData call sites in LC graph builders", n, 6)
+    ctx.floor("... of which with a file edge type different from the in-memory type", differ, 3)
+
+
 def run(ctx):
     ctx.explanation = EXPL
     fx = ctx.load("src", "drv_lcgraph", "drv_morph")
+    file_edge_type(ctx, fx)
     ctx.rule("C11.race.owner-or-atomic",
              "parallel body: every non-local write is OWNER / CSR / CLAIMED / ATOMIC / THREAD; an index loaded from shared data "
              "with a plain write, or a neighbour read of an array written in the same body, is a race")
